@@ -67,6 +67,15 @@ C04ToReason(e, s) ==
   ELSE IF Take(e.after, sz) # ref THEN "bytes_differ_from_marshal"
   ELSE IF Drop(e.after, sz) # Drop(e.before, sz) THEN "wrote_beyond_length"
   ELSE ""
+\* the destination is the buffer the packet was decoded from (its payload and extension values alias it)
+C04InPlaceReason(e) ==
+  LET sz == Len(e.want) IN
+  IF e.res = "panic" THEN "in_place_panic"
+  ELSE IF e.res # "ok" THEN "in_place_sufficient_dst_refused"
+  ELSE IF e.n # sz THEN "in_place_returned_length"
+  ELSE IF Take(e.after, sz) # e.want THEN "in_place_bytes_differ_from_marshal"
+  ELSE IF Drop(e.after, sz) # Drop(e.before, sz) THEN "in_place_wrote_beyond_length"
+  ELSE ""
 
 -----------------------------------------------------------------------------
 (* C20: Clone gives an equal value; afterwards the two are independent.     *)
@@ -176,6 +185,7 @@ Reason(e, s) ==
          ELSE ""
     [] e.ev = "marshal" -> C04MarshalReason(e)
     [] e.ev = "marshalto" -> C04ToReason(e, s)
+    [] e.ev = "inplace" -> C04InPlaceReason(e)
     [] e.ev = "decode" -> IF Prop = "C02" THEN C02Reason(e)
                           ELSE IF e.kind = "image" THEN C03ImageReason(e) ELSE C03BytesReason(e)
     [] e.ev = "view" -> C03ViewReason(e)
